@@ -179,17 +179,25 @@ def race_reports(out, scope):
         block = block.split("==================")[0]
         # the two accesses: sections starting with "Read at"/"Write at"/"Previous read at"/"Previous write at"
         secs = re.split(r"\n(?=(?:Previous )?(?:[Rr]ead|[Ww]rite) (?:at|of))", "\n" + block)
-        tops = []
+        tops, accessors = [], []
         for sec in secs:
             if not re.match(r"\n?(?:Previous )?(?:[Rr]ead|[Ww]rite)", sec):
                 continue
             sec = sec.split("\nGoroutine ")[0]
+            # the frame that performs the access: the first source line of the section
+            a = re.search(r"\n\s+(/[^\s:]*\.go):(\d+)", sec)
+            if a:
+                accessors.append(a.group(1))
             m = re.findall(r"\n\s+(" + re.escape(repo_dir()) + r"/[^\s:]*\.go):(\d+)", sec)
             m = [(f, l) for f, l in m if "zz_verif" not in f and "verifkit" not in f]
             if m:
                 tops.append("%s:%s" % m[0])
         key = " vs ".join(tops) if tops else "unknown"
-        if any(any(sc in t for sc in scope) for t in tops):
+        if accessors and all("zz_verif" in f or "verifkit" in f for f in accessors):
+            # both accesses are performed by harness code on harness memory (a fake client's own fields):
+            # a defect of the harness, not of galene
+            outscope.append("harness-memory:" + key)
+        elif any(any(sc in t for sc in scope) for t in tops):
             inscope.append(key)
         else:
             outscope.append(key)
